@@ -35,6 +35,7 @@ type boundCase struct {
 	leftover int
 	sigKey   *ms.Key // when set, items[sigAt] is replaced by a signature for this key
 	sigAt    int
+	tapSig   bool // the signature is a BIP342 one
 	lockTime *uint32
 	sequence *uint32
 }
@@ -90,7 +91,7 @@ func dropBlocks(n int) ([]byte, int) {
 
 func genBoundCase(t *rapid.T) *boundCase {
 	kind := rapid.SampledFrom([]string{"opcount", "opcount-dead", "opcount-multisig", "opcount-reserved", "elem-script", "elem-item",
-		"stack", "stack-alt", "stack-tapscript", "size", "size-tapscript", "multisig-keys", "num-operand", "locktime-operand"}).Draw(t, "bound")
+		"stack", "stack-alt", "stack-tapscript", "size", "size-tapscript", "multisig-keys", "num-operand", "locktime-operand", "tap-budget", "tap-budget"}).Draw(t, "bound")
 	delta := rapid.SampledFrom([]int{-1, 0, 0, 1}).Draw(t, "delta")
 	all := []string{"bare", "p2sh", "p2wsh", "p2sh-p2wsh", "tapscript"}
 	c := &boundCase{name: fmt.Sprintf("%s%+d", kind, delta)}
@@ -203,6 +204,49 @@ func genBoundCase(t *rapid.T) *boundCase {
 		c.script = b.Num(int64(k)).Op(ms.OP_CHECKMULTISIG).B
 		c.layers = []string{"bare", "p2wsh", "p2sh-p2wsh"}
 		c.valid = func(string) bool { return k <= 20 }
+	case "tap-budget":
+		// k signature checks of one duplicated 64-byte signature; the
+		// budget is 50 + serialized witness size and every check of a
+		// non-empty signature costs 50; a dropped data push pads the script
+		// so that the weight left after the last check is exactly `left`
+		checks := rapid.IntRange(2, 14).Draw(t, "checks")
+		left := rapid.SampledFrom([]int{-50, -2, -1, 0, 0, 1, 49}).Draw(t, "left")
+		k := key(rapid.IntRange(0, 5).Draw(t, "key"))
+		mk := func(pad int) []byte {
+			bb := &ms.Builder{}
+			if pad >= 0 {
+				bb.Raw(ms.PushData(fill(pad, 0xaa))).Op(ms.OP_DROP)
+			}
+			bb.Push(k.XOnly())
+			for i := 0; i < checks-1; i++ {
+				bb.Op(ms.OP_2DUP, ms.OP_CHECKSIGVERIFY)
+			}
+			return bb.Op(ms.OP_CHECKSIG).B
+		}
+		weight := func(scr []byte) int {
+			return 50 + int(ms.SerializedWitnessSize([][]byte{fill(64, 0), scr, fill(33, 0)})) - 50*checks
+		}
+		c.script = nil
+		for pad := -1; pad <= 520; pad++ {
+			if pad == 0 {
+				continue // "OP_0 DROP" would need the OP_0 form; skip
+			}
+			if scr := mk(pad); weight(scr) == left {
+				c.script = scr
+				break
+			}
+		}
+		if c.script == nil {
+			// not reachable by padding (too many checks for the size): use
+			// the unpadded script and whatever weight it has
+			c.script = mk(-1)
+			left = weight(c.script)
+		}
+		c.name = fmt.Sprintf("tap-budget/checks=%d/left=%d", checks, left)
+		c.sigKey, c.tapSig = k, true
+		c.items = [][]byte{nil}
+		c.layers = []string{"tapscript"}
+		c.valid = func(string) bool { return left >= 0 }
 	case "num-operand":
 		// 4-byte operands are numbers, 5-byte ones are not (but 1ADD may
 		// produce a 5-byte result)
@@ -268,7 +312,10 @@ func propBounds(t *rapid.T) {
 	}
 	sk.finalizeOutpoints()
 	items := cloneItems(c.items)
-	if c.sigKey != nil {
+	if c.sigKey != nil && c.tapSig {
+		ctx := &ms.TapCtx{TapLeafHash: ms.TapLeafHash(0xc0, c.script), CodeSepPos: 0xffffffff}
+		items[c.sigAt] = makeTapSig(c.sigKey, sk.tx, idx, sk.prevouts, true, ctx, cleanTapSig())
+	} else if c.sigKey != nil {
 		o := cleanSig(1)
 		items[c.sigAt] = makeECDSASig(c.sigKey, func(ht byte) []byte {
 			if layer == "p2wsh" || layer == "p2sh-p2wsh" {
